@@ -10,7 +10,7 @@
 //           P <Q c A b G h x0>                     the program as stated to the solver (after the restatement), x0 used
 //           R <reduced> [<A'> <b'>]                logged normalised equalities when rows were reduced
 //           { I <x> <u> <v> | S <dx> <du> <dv> | D <x> <u> <v> | Z <x> <v> } E
-// res: ok X <status> <iters> <fx> <x> <u> <v> N <mufx> <p'> <Q'> <c'> <A'> <b'> <G'> <h'> [B <started>]
+// res: ok X <status> <iters> <fx> <x> <u> <v> K <kkt> N <mufx> <p'> <Q'> <c'> <A'> <b'> <G'> <h'> [B <started>]
 //           { I <k> <fx> <eta> <rdual> <rprim> <rcent> | U <u> | S <s1> | D <feasible> <eta> <rd> <rp> <fx> |
 //             Z <valid> <aprox> <fx> <rdual> <rprim> } E <status>
 #include "common.h"
@@ -434,6 +434,7 @@ std::string vh::execute(toks_t& toks, std::string& aug)
     r << "ok"
       << "X" << static_cast<int>(state.m_status) << state.m_iters << state.m_fx;
     r.flist(from_vector(state.m_x)).flist(from_vector(state.m_u)).flist(from_vector(state.m_v));
+    r << "K" << state.m_kkt; // the KKT optimality test `solver_state_t::update` left in the returned state
 
     bool seen_norm = false, seen_iter = false;
     dvec iter_x, iter_u;
